@@ -265,6 +265,50 @@ def explore_lines(args):
     return n, skipped, bad
 
 
+# ---------------------------------------------------------------- as_yaml through write_lines
+YAML_VALUES = ["x", "two words", "{f_var}%cxxmem", ["h1.h"], ["h1.h", "<vector>"], ["-lm", "+x"], {"k": "v"}, {"k": ["i", "j"], "m": "n"}, 3, True]
+
+
+def explore_as_yaml(args):
+    """util.as_yaml renders a mapping as directive lines (an explicit '@' keeps a sequence item's leading '-' literal);
+    written through write_lines the text must load, as YAML, to the mapping it was made from."""
+    shard, nshards = args
+    import yaml as _y
+    from shroud import util
+
+    w = make_writer()
+    bad = []
+    n = 0
+    idx = 0
+    for nkeys in (1, 2, 3):
+        for vals in itertools.product(range(len(YAML_VALUES)), repeat=nkeys):
+            idx += 1
+            if idx % nshards != shard:
+                continue
+            obj = {"key%d" % i: YAML_VALUES[v] for i, v in enumerate(vals)}
+            for indent in (0, 1):
+                lines = []
+                try:
+                    util.as_yaml(obj, sorted(obj), lines)
+                    w.indent = indent
+                    w.linelen = 1000
+                    w.cont = ""
+                    fp = io.StringIO()
+                    w.write_lines(fp, lines, "  ")
+                    text = fp.getvalue()
+                    got = _y.safe_load(text)
+                    ok = got == obj and w.indent == indent
+                    why = "loads as %r" % (got,) if got != obj else "leaves indent %d" % w.indent
+                except Exception as e:  # noqa
+                    ok = False
+                    why = "%s: %s" % (type(e).__name__, str(e)[:120])
+                    text = locals().get("text", "")
+                n += 1
+                if not ok and len(bad) < 10:
+                    bad.append((obj, indent, "as_yaml(%r) written at indent %d gives %r, which %s" % (obj, indent, text, why)))
+    return n, bad
+
+
 # ---------------------------------------------------------------- generated files
 def fortran_line_limit(ctx, only=None):
     base = ctx.subdir("corpus")
@@ -445,6 +489,14 @@ def run(ctx):
             for seq, ind, err in r[2]:
                 ctx.violation("write_lines %r indent=%d" % (seq, ind), err, {"kind": "lines", "seq": seq, "indent": ind})
     ctx.sample({"directive_lines": ["+if (a) {", "x = 1;", "-}"], "indent": 0})
+    # --- as_yaml + write_lines
+    res = isolate.pmap(explore_as_yaml, [(s_, nsh) for s_ in range(nsh)], W)
+    n = sum(r[0] for r in res)
+    ctx.count(states=n, transitions=n, validated=n)
+    ctx.part("as_yaml round trip", executions=n, values=len(YAML_VALUES))
+    for r in res:
+        for obj, ind, err in r[1]:
+            ctx.violation("as_yaml %s" % sorted(type(v).__name__ for v in obj.values()), err, {"kind": "as_yaml", "obj": obj, "indent": ind})
     # --- generated Fortran files
     fortran_line_limit(ctx)
     line_length_options(ctx)
